@@ -986,6 +986,12 @@ impl CompositionGraph {
         self.exports.get(name).map(|i| NodeId(*i))
     }
 
+    /// Gets the exports of the graph as pairs of export name and exported node,
+    /// in the order the exports were added.
+    pub fn exports(&self) -> impl Iterator<Item = (&str, NodeId)> + '_ {
+        self.exports.iter().map(|(n, i)| (n.as_str(), NodeId(*i)))
+    }
+
     /// Unmarks the given node from being exported from an encoding of the graph.
     ///
     /// Returns an error if the given node is a type definition, as type
